@@ -5,8 +5,8 @@ extern "C" {
 #endif
 #define C18_MISSING (-1)
 #define C18_DEFAULT (-2)
-#define C18_MAXEV 192
-#define C18_STRMAX 96
+#define C18_MAXEV 6000
+#define C18_STRMAX 768
 struct c18_ev {
 	int label;		/* option index in the table, C18_MISSING or C18_DEFAULT */
 	int has_arg;		/* optarg != NULL at the label */
